@@ -232,6 +232,43 @@ func genVolumes(g *gen) {
 			},
 			Expect: map[string]string{"len(Services[s].Volumes)": itoa(k)}})
 	}
+	// (d) bind-only flags on a named volume and nocopy on a path source: what the flags mean
+	// there is not stated, but "a bind mount iff its source is a path" is: assert type, source
+	// and target only.
+	for i := 0; i < g.size(40, 400); i++ {
+		named := i%4 != 3
+		var v volSpec
+		if named {
+			v = drawVol(r, "name", 0)
+			v.modes = []string{pick(r, append([]string{"z", "Z"}, propagation...))}
+			if i%3 == 0 {
+				v.modes = append([]string{pick(r, []string{"ro", "rw"})}, v.modes...)
+			}
+		} else {
+			v = drawVol(r, pick(r, []string{"rel", "abs", "homerel"}), 0)
+			if !v.isBind() {
+				continue
+			}
+			v.modes = []string{"nocopy"}
+		}
+		names := map[string]bool{}
+		typ := "bind"
+		if v.srcKind == "name" {
+			names[v.source] = true
+			typ = "volume"
+		}
+		exp := map[string]string{
+			"len(Services[s].Volumes)":      "1",
+			"Services[s].Volumes[0].Type":   typ,
+			"Services[s].Volumes[0].Target": path.Clean(v.target),
+		}
+		if typ == "volume" {
+			exp["Services[s].Volumes[0].Source"] = v.source
+		}
+		g.emit(pcase{Position: volumesPosition.name, Class: "flag-foreign-to-type,source=" + v.srcKind, Mode: "pair",
+			Docs:   []spelled{{Name: "short", Text: v.short(), YAML: volDoc(l{v.short()}, names)}},
+			Expect: exp})
+	}
 	// (c) unknown mode flags: the statement does not list them, the code documents
 	// that it ignores them: no-crash only.
 	for i := 0; i < g.size(20, 200); i++ {
